@@ -32,12 +32,12 @@ const (
 )
 
 type obCfg struct {
-	NI     int    `json:"ni"`    // number of interfaces declared (I1..)
-	Ext    int    `json:"ext"`   // bit0 I2 extends I1, bit1 I3 extends I1, bit2 I3 extends I2
-	Depth  int    `json:"depth"` // 1: C; 2: C extends P; 3: C extends P extends G (P, G abstract)
-	Decl   [2]int `json:"decl"`  // declarer of m1, m2: 0..2 interface, 3 abstract in P, 4 abstract in G, 5 not declared
-	Att    [3]int `json:"att"`   // per interface: 0 nowhere, 1 C implements, 2 P implements, 3 G implements
-	Impl   [2]int `json:"impl"`  // per method: 0 nowhere, 1 in C, 2 in P, 3 in G
+	NI     int    `json:"ni"`     // number of interfaces declared (I1..)
+	Ext    int    `json:"ext"`    // bit0 I2 extends I1, bit1 I3 extends I1, bit2 I3 extends I2
+	Depth  int    `json:"depth"`  // 1: C; 2: C extends P; 3: C extends P extends G (P, G abstract)
+	Decl   [2]int `json:"decl"`   // declarer of m1, m2: 0..2 interface, 3 abstract in P, 4 abstract in G, 5 not declared
+	Att    [3]int `json:"att"`    // per interface: 0 nowhere, 1 C implements, 2 P implements, 3 G implements
+	Impl   [2]int `json:"impl"`   // per method: 0 nowhere, 1 in C, 2 in P, 3 in G
 	Static bool   `json:"static"` // m2 is a static method (declaration and implementation)
 }
 
